@@ -186,6 +186,11 @@ func (p *Program) background(d *Decls) []*T {
 		out = append(out, Forall([]*T{r}, pattern(Eq(App("inv_"+n, SInt, app), r), app)))
 		out = append(out, Forall([]*T{r}, pattern(Eq(App("refkind", SInt, app), IntLit(int64(p.subRefs[n]))), app)))
 		out = append(out, Forall([]*T{r}, pattern(Ne(app, IntLit(0)), app)))
+		if d.Has("Alloc!0") {
+			// a nested struct is allocated exactly when its owner is
+			a0 := Sym("Alloc!0", ArrSort(SInt, SBool))
+			out = append(out, Forall([]*T{r}, pattern(Eq(Select(a0, app), Select(a0, r)), app)))
+		}
 	}
 	// interface boxing of pointers is injective
 	for i := 1; i <= len(p.tagName); i++ {
